@@ -104,7 +104,7 @@ class C11(Check):
 
     def arms(self, tier):
         q = tier == "quick"
-        return [("seam", 16), ("basis", 9 * 255 + 2), ("random", 400 if q else 6000), ("double", 66 * (1 if q else 12))]
+        return [("seam", 16), ("basis", 9 * 255 + 2), ("random", 400 if q else 6000), ("double", 66 * (1 if q else 12)), ("history", 300 if q else 5000)]
 
     def generate(self, arm, index, streams, tier):
         w = streams["work"]
@@ -126,6 +126,23 @@ class C11(Check):
                 msg = bytes(w.choice([0, 0, 1, msg[i]]) for i in range(9))
             return {"task": "random", "message": msg.hex(), "mclass": "random", "other": bytes(w.getrandbits(8) for _ in range(9)).hex(),
                     "random_mask": "%06x" % w.getrandbits(24), "seed": w.getrandbits(32)}
+        if arm == "history":
+            # a transmitter/receiver pair sharing the process with a sloppy co-caller: legal generate/check calls (bytes or mutable containers,
+            # the SAME mask object re-used), failing calls (wrong types / lengths, which raise), and in-place corruption of what generate returned
+            ops = []
+            masks = [w.choice(list(MASKS.values()) + ["%06x" % w.getrandbits(24)]) for _ in range(2)]
+            for _ in range(w.choice([4, 10, 30])):
+                x = w.random()
+                msg = bytes(w.choice([0, w.getrandbits(8)]) for _ in range(9)).hex()
+                if x < 0.2:
+                    ops.append({"op": "bad", "kind": w.choice(["mask_none", "mask_enum", "msg_list", "msg_short", "mask_short", "msg_str"]), "msg": msg})
+                elif x < 0.6:
+                    ops.append({"op": "gen", "msg": msg, "mask": w.randrange(2), "container": w.choice(["bytes", "bytearray", "bytearray", "memoryview"]),
+                                "corrupt": [[w.randrange(12), w.randrange(1, 256)] for _ in range(w.choice([0, 1, 2, 3]))]})
+                else:
+                    ops.append({"op": "chk", "msg": msg, "mask": w.randrange(2), "container": w.choice(["bytes", "bytearray"]),
+                                "corrupt": [[w.randrange(12), w.randrange(1, 256)] for _ in range(w.choice([0, 0, 1, 2, 3]))]})
+            return {"task": "history", "masks": masks, "ops": ops}
         import random
 
         cwi, pi = divmod(index, 66)
@@ -182,7 +199,7 @@ class C11(Check):
             other = bytes([mask[0] ^ 0x0F, mask[1], mask[2] ^ 0x81])
             if RS.check(w, other):
                 fail("C11.mask", mclass, f"word {w.hex()} generated under mask {mask_hex} is accepted under mask {other.hex()}", dict(sub, check_mask=other.hex()))
-            if mname == "random":  # same octets in mutable containers (legal, unusual): same word, same verdict, caller's buffers untouched
+            if mname in ("random", "replay"):  # same octets in mutable containers (legal, unusual): same word, same verdict, caller's buffers untouched
                 mb, kb = bytearray(msg), bytearray(mask)
                 w2 = RS.generate(mb, kb)
                 if bytes(w2) != bytes(w) or bytes(mb) != msg or bytes(kb) != mask:
@@ -271,6 +288,8 @@ class C11(Check):
                         inject(msg, mh, w, list(pos), xor, "random", mname, adv)
                         res.fault("triple_symbol_adversarial")
             res["ops"] = 1
+        elif task == "history":
+            self._history(RS, res, case)
         elif task == "double":
             msg = bytes.fromhex(case["message"])
             w = clean_checks(msg, case["mask"], "random", "grid")
@@ -294,6 +313,97 @@ class C11(Check):
         log.add(0, task, "done", (res["evals"], len(res["viol"])))
         res["digest"] = log.digest()
         return res
+
+    @staticmethod
+    def _ref_codeword(msg, mask):
+        """reference encoder: systematic division by g(x) = (x-a)(x-a^2)(x-a^3) in the shift-and-xor field"""
+        g = [1]
+        for j in (1, 2, 3):
+            a = gpow(2, j)
+            g = [x ^ gmul(y, a) for x, y in zip(g + [0], [0] + g)]
+        rem = list(msg) + [0, 0, 0]
+        for i in range(9):
+            c = rem[i]
+            if c:
+                for j in range(1, 4):
+                    rem[i + j] ^= gmul(g[j], c)
+        return bytes(msg) + bytes(p ^ m for p, m in zip(rem[9:], mask))
+
+    def _history(self, RS, res, case):
+        from okdmr.dmrlib.etsi.layer2.elements.crc_masks import CrcMasks
+
+        mask_objs = [bytearray.fromhex(m) for m in case["masks"]]  # the caller keeps its masks in re-used mutable buffers
+        mask_vals = [bytes.fromhex(m) for m in case["masks"]]
+        for i, op in enumerate(case["ops"]):
+            msg = bytes.fromhex(op["msg"])
+            if op["op"] == "bad":
+                try:
+                    k = op["kind"]
+                    if k == "mask_none":
+                        RS.generate(msg, None)
+                    elif k == "mask_enum":
+                        RS.generate(msg, CrcMasks.VoiceLCHeader)
+                    elif k == "msg_list":
+                        RS.generate(list(msg), b"\0\0\0")
+                    elif k == "msg_short":
+                        RS.generate(msg[:8], b"\0\0\0")
+                    elif k == "mask_short":
+                        RS.check(msg + b"\0\0\0", b"\0")
+                    else:
+                        RS.generate(op["msg"], b"\0\0\0")
+                except Exception:
+                    pass
+                res.fault("failing_call")
+                continue
+            mi = op["mask"]
+            mv = mask_vals[mi]
+            want = self._ref_codeword(msg, mv)
+            res["evals"] += 1
+            cont = {"bytes": bytes, "bytearray": bytearray, "memoryview": lambda b: memoryview(bytes(b))}[op["container"]]
+            site = op["op"]
+            if op["op"] == "gen":
+                try:
+                    w = RS.generate(cont(msg), mask_objs[mi])
+                except Exception as e:
+                    if op["container"] == "memoryview":
+                        continue  # not every container type is supported; bytes and bytearray are
+                    res.violate("C11.history", site, f"call #{i}: generate({op['msg']}, mask {case['masks'][mi]}) as {op['container']} raised {type(e).__name__}: {e}", at=i)
+                    return
+                if bytes(w) != want:
+                    res.violate("C11.history", site, f"call #{i}: generate({op['msg']}, mask {case['masks'][mi]}) as {op['container']} = {bytes(w).hex()}, reference codeword {want.hex()}", at=i)
+                    return
+                if bytes(mask_objs[mi]) != mv:
+                    res.violate("C11.history", "mask-buffer", f"call #{i}: generate changed the caller's mask buffer {case['masks'][mi]} -> {bytes(mask_objs[mi]).hex()}", at=i)
+                    return
+                # the channel corrupts what generate returned, in place when that is a mutable buffer
+                if op["corrupt"]:
+                    rx = w if isinstance(w, bytearray) else bytearray(w)
+                    eff = {}
+                    for p, x in op["corrupt"]:
+                        eff[p] = eff.get(p, 0) ^ x
+                    for p, x in eff.items():
+                        rx[p] ^= x
+                    changed = any(eff.values())
+                    acc = RS.check(rx if op["container"] != "bytes" else bytes(rx), mask_objs[mi])
+                    if changed and acc:
+                        res.violate("C11.history", "corrupted-accepted", f"call #{i}: word {want.hex()} with octets {sorted(eff)} corrupted in place in the returned buffer is accepted", at=i)
+                        return
+                    res.fault("symbol_error_in_place", 1)
+            else:
+                rx = bytearray(want)
+                eff = {}
+                for p, x in op["corrupt"]:
+                    eff[p] = eff.get(p, 0) ^ x
+                for p, x in eff.items():
+                    rx[p] ^= x
+                changed = any(eff.values())
+                acc = RS.check(cont(rx), mask_objs[mi])
+                if acc != (not changed):
+                    res.violate("C11.history", "check", f"call #{i}: check({bytes(rx).hex()}, mask {case['masks'][mi]}) = {acc}; the word is {'a' if not changed else 'not a'} codeword "
+                                f"({len([1 for v in eff.values() if v])} octets differ)", at=i)
+                    return
+            res["cov"].add(f"history|{op['op']}|{op['container']}|c{len(op['corrupt'])}")
+        res["ops"] = len(case["ops"])
 
     @staticmethod
     def _linearity(RS, res, fail, a, b, mclass):
